@@ -67,7 +67,7 @@ def work_C14(run, rng, budget):
                 run.corr(line, real, "observable")
             elif kind == "read":
                 line, real, _ = R.op_moltext(arg)
-                run.corr(line, real, "exact")
+                run.corr(line, real, "atom-order")
         dfa = []
         for (mode, i, hs), p in procs:
             out, err = p.communicate(timeout=1500)
